@@ -62,6 +62,18 @@ def clone_with_stalled_source():
             st("compare_clone", r=1, src=0, name="base", vol=0, if_rw=True), st("cont", r=0)]
 
 
+def clone_with_failing_reload():
+    """the clone's reload after the copy fails (its chain limit is lower than the number of files it must hold):
+    the clone must not be served, or be exact"""
+    return [st("replica", r=0, vol=1), st("wait_rw", vol=1, n=1, timeout=60),
+            st("write", vol=1, count=30), st("snapshot", vol=1, name="a"), st("write", vol=1, count=20),
+            st("snapshot", vol=1, name="b"), st("write", vol=1, count=20), st("snapshot", vol=1, name="base"),
+            st("write", vol=1, count=10),
+            st("clone_replica", r=1, vol=0, src=1, name="base", env=["MAX_CHAIN_LENGTH=3"]),
+            st("poll_clone", r=1, vol=0, timeout=40), st("modes", vol=0),
+            st("compare_clone", r=1, src=0, name="base", vol=0, if_rw=True)]
+
+
 def clone_scenario(interrupt=False):
     """source volume (controller 1) with history and snapshot S; a clone replica of a new volume (controller 0)"""
     s = [st("replica", r=0, vol=1), st("wait_rw", vol=1, n=1, timeout=60),
